@@ -273,6 +273,34 @@ func init() {
 	c15Bases = append(c15Bases, b.String())
 }
 
+func init() {
+	// 7: the NAME of a default prefix (core) bound by the user to another namespace, next to a user alias for the
+	// default namespace itself: renaming `core` away frees the name, after which the alias may be replaced by the default
+	c15Bases = append(c15Bases, `profile: c15 shadowed default prefix name
+prefixes:
+  core: http://ex.org/acme#
+  amf: http://a.ml/vocabularies/core#
+  ex: http://ex.org/
+violation:
+  - named
+warning:
+  - owned
+validations:
+  named:
+    message: needs a core name, has {{amf.name}}
+    targetClass: ex.T
+    propertyConstraints:
+      amf.name:
+        minCount: 1
+  owned:
+    message: needs an acme owner, has {{core.owner}}
+    targetClass: ex.T
+    propertyConstraints:
+      core.owner:
+        minCount: 1
+`)
+}
+
 const apiExtNS = "http://a.ml/vocabularies/api-extension#"
 const coreNS = "http://a.ml/vocabularies/core#"
 
@@ -303,6 +331,12 @@ func c15Graph() *Graph {
 		n := g.Add(nid(m), EX+"T")
 		n.P(EX+"name", names[m])
 		n.P(EX+"num", m)
+		if m%2 == 1 {
+			n.P(EX+"acme#owner", "acme owner")
+		}
+		if m%3 == 0 {
+			n.P(coreNS+"name", "core name")
+		}
 		if m%2 == 0 {
 			n.P(EX+"tag", "minCount-ok") // a scalar VALUE in the profile equals a sibling KEY name (`pattern: minCount`)
 		}
@@ -629,7 +663,7 @@ func c15Canon(text string) (string, error) {
 func init() {
 	Register(Meta{
 		ID: "C15", Level: "model_checking", LongCases: true,
-		Rule:        "state = profile YAML text; initial states = 4 base profiles (sibling keys at every mapping level with nested two levels and and/or of three operands; three validations over three levels with placeholders and a user prefix bound to a default namespace; several quantified constraints under one propertyConstraints map; conditionals/negation/several constraints on one property); transitions, every applicable (operator, position): swap two adjacent keys of any mapping, swap two adjacent items of any sequence (level lists, and/or operands, value lists), rename a user prefix consistently, replace a user prefix by a default prefix bound to the same namespace, plain/single/double quoting of any string scalar (keys included), flow<->block style of any collection, comment insertion, indent width, CRLF line ends, trailing blanks. Depth-bounded search deduplicated on the text; every successor is first validated to denote the same abstract profile (canonical form with IRIs expanded and collections unordered); every state's (conforms, result set with messages) on a data graph must equal the base spelling's.",
+		Rule:        "state = profile YAML text; initial states = 8 base profiles (among them: sibling keys at every mapping level with nested two levels and and/or of three operands; three validations over three levels with placeholders and a user prefix bound to a default namespace; several quantified constraints under one propertyConstraints map; conditionals/negation/several constraints on one property; a custom domain property through a user prefix; Rego operands; 28 quantified siblings; the name of a default prefix bound to another namespace next to a user alias of the default namespace); transitions, every applicable (operator, position): swap two adjacent keys of any mapping, swap two adjacent items of any sequence (level lists, and/or operands, value lists), rename a user prefix consistently, replace a user prefix by a default prefix bound to the same namespace, plain/single/double quoting of any string scalar (keys included), flow<->block style of any collection, comment insertion, indent width, CRLF line ends, trailing blanks. Depth-bounded search deduplicated on the text; every successor is first validated to denote the same abstract profile (canonical form with IRIs expanded and collections unordered); every state's (conforms, result set with messages) on a data graph must equal the base spelling's.",
 		Assumptions: []string{"block scalars do not occur in the base profiles (trailing-blank and CRLF rewrites would change them)"},
 	}, c15Gen, c15Run)
 }
@@ -642,7 +676,7 @@ func c15Gen(tier string, emit func(c15Case)) {
 	}
 	for p := range c15Bases {
 		d := depth
-		if tier == "quick" && p == 2 {
+		if tier == "quick" && (p == 2 || p == 7) {
 			d = 2 // the sibling-quantifier profile is small: all pairs of rewrites
 			for k := 0; k < 16; k++ {
 				emit(c15Case{Profile: p, Depth: d, Part: k, Parts: 16})
